@@ -104,12 +104,11 @@ def run_engine(c, pid):
         plan.append(("ls", ["enum", 3, 2, "ls"]))
         plan.append(("ls3", ["enum", 3, 3, "ls"]))     # three runs: a line may start with a whole run and go on
         bidi_n = 5
-    if os.environ.get("VERIF_WRAP_LONG"):
-        # paragraphs of > 100 lines (beyond the wrapper's initial line storage). Not part of the registered tiers: WrapV's
-        # recursive definitions are quadratic in the paragraph length (one 200-rune paragraph takes minutes); DESIGN section 9, C02-6
-        plan.append(("long", ["long"]))
+    # paragraphs of > 100 lines (beyond the wrapper's initial line storage), one per shard: WrapV's recursive definitions are
+    # quadratic in the paragraph length (a 200-rune paragraph takes ~10 s), so the class is kept to a dozen paragraphs
+    plan.append(("long", ["long"]))
     if pid == "C08":
-        plan = [p for p in plan if p[0] in ("core", "long")]
+        plan = [p for p in plan if p[0] in ("core",)]
     only = os.environ.get("VERIF_ONLY")
     if only:
         plan = [p for p in plan if p[0] in only.split(",")]
